@@ -404,9 +404,15 @@ def formats_records(job, nid):
         d = os.path.join(work, "f%d" % item["k"])
         os.makedirs(d, exist_ok=True)
         files = []
+        rel = item.get("pathstyle") == "rel"
         for i, p in enumerate(item["files"]):
             q = os.path.join(d, "in%d_%s" % (i, os.path.basename(p)))
-            with open(q, "w", encoding="utf-8", newline="") as f:
+            if rel:
+                # the files are named relative to the working directory: through the parent directory, inside a dot-directory
+                sub = [".gen", os.path.join("..", os.path.basename(d))][i % 2]
+                os.makedirs(os.path.join(d, sub), exist_ok=True)
+                q = os.path.join(sub, "in%d_%s" % (i, os.path.basename(p)))
+            with open(os.path.join(d, q) if rel else q, "w", encoding="utf-8", newline="") as f:
                 f.write(read(p) if os.path.exists(p) else p)
             files.append(q)
         argv = ["vsg", "-f"] + files + ["-p", "1", "-of", item["of"], "--json", os.path.join(d, "o.json"), "--junit", os.path.join(d, "o.xml"), "--quality_report", os.path.join(d, "q.json")]
@@ -422,7 +428,10 @@ def formats_records(job, nid):
         sys.argv = argv
         code = None
         status = "ok"
+        cwd0 = os.getcwd()
         try:
+            if rel:
+                os.chdir(d)
             with contextlib.redirect_stdout(out), contextlib.redirect_stderr(err):
                 vmain.main()
         except SystemExit as e:
@@ -431,6 +440,7 @@ def formats_records(job, nid):
             status = "crash:" + type(e).__name__ + ":" + str(e)[:100]
         finally:
             sys.argv = old
+            os.chdir(cwd0)
         exitc = 0 if code in (None, 0, False) else 1
         if status != "ok":
             exitc = 1  # an uncaught exception ends the real process with a traceback and status 1
